@@ -1,0 +1,13 @@
+//go:build verif
+
+package lexer
+
+// Called at the entry of every NextToken call with the lexer's identity
+// and the length (in runes) of its input.
+var VerifLex func(l *Lexer, inputRunes int)
+
+func verifLex(l *Lexer) {
+	if VerifLex != nil {
+		VerifLex(l, len(l.program))
+	}
+}
